@@ -92,6 +92,13 @@ def givens_check(rec, cls, detail, x1, x2, t_exact=None):
     want = np.zeros(8)
     want[0] = nrm if t_exact is None else t_exact
     rec.units(t, "GivensMapsPairToNormZero", units(float(np.max(np.abs(y - want))), max(nrm, 1e-300), 8))
+    # stored rotations (the GMRES pattern): a rotation still held by the caller maps ITS pair after further rotations
+    # have been generated for other pairs (no shared work array handed out as the result)
+    Graw = u.ggivens(x1.copy(), x2.copy())
+    snap = np.array(Graw, dtype=np.float64, copy=True)
+    u.ggivens(x2.copy() + 1.0, x1.copy() - 2.0)
+    u.ggivens(np.array([0.0, 1.0, 0.0, 0.0]), np.array([0.0, 0.0, 2.0, 0.0]))
+    rec.flag(t, "GivensMapsPairToNormZero", bool(np.array_equal(np.asarray(Graw, dtype=np.float64), snap)))
 
 
 def single_rotation_check(rec, cls, detail, g):
